@@ -186,4 +186,14 @@ PROPS = {
         quick=dict(shards=16, checks=120, extra=["TestQuota"], timeout=900),
         thorough=dict(shards=16, checks=2000, extra=["TestQuota"], timeout=3400),
     ),
+    "C17": dict(
+        pkg="c17",
+        technique="enumerated argument lattice plus property-based sampling (rapid) of encoder arguments around every documented limit, with a reject/accept oracle and decode-back of every returned stream",
+        level_text="Exploration: the full small-dimension lattice (dimensions -1..3, components 0..5, depth set, quality/NEAR/predictor sets, buffer lengths 0..needed+1) of every package-level encoder is enumerated; dimensions around 2^15 and 2^16, JPEG 2000 level/code-block limits, nil parameters, and codec-level FrameInfo/Parameters/frames combinations (nil, foreign, wrongly typed, out of range, zero frames, empty frame, nil FrameInfo) are sampled.",
+        level_note="An encoder must return an error for the argument classes the statement lists, must never panic, and any stream it returns must decode to / declare exactly the requested geometry. Arguments the statement does not list are only subject to the last two.",
+        rule=("enumerated + rapid-generated argument tuples. Every case has at least one argument at or beyond a limit or is a lattice point; non-trivial = all (each tuple is a distinct call). Distinct = hash of the case."),
+        assumptions=COMMON_ASSUME,
+        quick=dict(shards=16, checks=800, extra=[dict(run="TestLattice", shards=8)], timeout=900),
+        thorough=dict(shards=16, checks=15000, extra=[dict(run="TestLattice", shards=16)], timeout=3400),
+    ),
 }
